@@ -29,7 +29,7 @@ class Clause(object):
 
     def __init__(self, name, check, strategy=None, rule="", examples=None,
                  shards=None, enumerate=None, exhaustive=False,
-                 max_shrink_s=None):
+                 max_shrink_s=None, fuzz=None):
         self.name = name
         self.check = check
         self.strategy = strategy
@@ -39,6 +39,9 @@ class Clause(object):
         self.enumerate = enumerate
         self.exhaustive = exhaustive
         self.max_shrink_s = max_shrink_s or {"quick": 40, "thorough": 240}
+        # fuzz: {"target": name in vf.fuzz.TARGETS, "runs": {tier: n},
+        #        "corpus": [bytes, ...], "max_len": n}  (Atheris campaign)
+        self.fuzz = fuzz
 
 
 def canonical(case):
